@@ -79,6 +79,16 @@ class Protocol(Component):
         packet = dump_value(value).encode('utf-8') + DELIMITER
         self.__send(packet)
 
+    @handler('exception', channel='*')
+    def _on_exception(self, etype, evalue, traceback, handler=None, fevent=None):
+        # a handler of a remote event failed: no <name>_success will come, answer with the error flag
+        value = getattr(fevent, 'value', None)
+        if getattr(fevent, 'node_call_id', False) is not False and getattr(value, 'manager', None) is self:
+            failed = Value()
+            failed.errors = True
+            failed.value = f'{etype.__name__}: {evalue}'
+            self.send_result(fevent.node_call_id, failed)
+
     def __send(self, packet):
         if self.__server is not None:
             self.fire(write(self.__sock, packet))
